@@ -62,7 +62,8 @@ def gen(streams, tier, i):
         if not any(ln.split("\t")[0] in ("S", "L", "C", "P", "E", "G", "F", "O", "U") for ln in lines):
             lines.append("S\tzz1\t*" if version == "gfa1" else "S\tzz1\t4\t*")
         lines.insert(dr.randint(0, len(lines)), "H\tVN:Z:%s" % ("2.0" if version == "gfa1" else "1.0"))
-        vlevel = cfg.choice([1, 2, 3])
+        # (every level: the other mixed documents are refused at level 0 too, and whether this one is must not
+        # depend on whether the header comes first)
         expect = "error"
     elif klass == "mixed_param":
         vparam = "gfa2" if version == "gfa1" else "gfa1"
